@@ -41,6 +41,16 @@ NOTES = {
  "C15-d": "caught at first only under some PRNG seeds; stage 'mixed-projections' added (projection resolving for some entries only, through variables at every level and through parameters)",
  "C16-d": "escaped at first (ground truth was the library loader, which like `test` has no source locations); statuses are now cross-checked with the validate command, programs capture keys across several maps",
  "C17-d": "escaped at first (one data file per run); a structured run over the data file and a copy of it added",
+ "C02-e": "escaped at first (a negated call of a SKIPped parameterised rule was too rare); C02 stage 'named-clauses' enumerates R / not R / f(k) / not f(k) x forced status x `or` companions",
+ "C04-e": "escaped at first (only the two same-named definitions were exchanged); the duplicate-names stage now also reorders the other rules while keeping the definitions in their order",
+ "C05-e": "escaped at first (outputs were only read from stdout); parse-tree / rulegen `-o FILE` modes with FILE absent, longer or shorter before the run",
+ "C06-e": "escaped C06 at first (distinct base names; caught by C12); a third of the C06 cases use <dir-i>/policy.guard",
+ "C07-e": "hidden at first behind the signature of known finding F42 (any table disagreement under duplicated names); the stage now compares the table's PASS / FAIL / SKIP sets one by one and only the exact F42 pattern keeps the known signature",
+ "C08-e": "escaped at first (the test command only ever got one, usually unusable, spec file); stage 'test-specs': every combination of 2-3 spec files of 7 kinds x 4 formats",
+ "C10-e": "escaped at first (no empty-string key); a fifth of the documents carry an entry under the key \"\"",
+ "C13-e": "escaped at first (the mini regex grammar had no brace quantifiers); `{n}`, `{n,}`, `{n,m}` added to the independent matcher and the pattern generator",
+ "C17-e": "escaped at first (parameter files held only scalars on which all loaders agree); stage 'raw-scalars': 26 disputed spellings in a parameter file and in the data vs the concatenated text",
+ "C19-e": "escaped at first (mutations only used values foreign to the whole template); every other mutation now borrows a value of another property of the same type",
  "C09-a": "caught through the file-status law; C09 now also compares rule names with the generated programs",
 }
 rows = []
